@@ -218,9 +218,15 @@ func checkInput(c InputCase) *vfrun.Failure {
 			}
 			for _, ge := range resp.Errors {
 				if len(ge.Path) > 0 && !resp.Rejected {
-					p := ge.Path.String()
-					if !strings.HasPrefix(p, c.Field) {
-						return vfrun.Failf("coerce.error-path", "%s: error path %q does not start at the field", desc, p)
+					if why := walkErrorPath(co, fd, c, ge.Path); why != "" {
+						return vfrun.Failf("coerce.error-path", "%s: error path %q: %s", desc, ge.Path.String(), why)
+					}
+					vfrun.Label("input:error-path-checked")
+					for _, seg := range ge.Path {
+						if ix, ok := seg.(ast.PathIndex); ok && ix > 0 {
+							vfrun.Label("input:error-path-checked:element>=1")
+							break
+						}
 					}
 				}
 			}
@@ -259,6 +265,95 @@ func checkInput(c InputCase) *vfrun.Failure {
 		vfrun.SampleCat("input-"+class.String(), map[string]any{"query": query, "variables": varsJSON, "class": class.String(), "why": why})
 	}
 	return nil
+}
+
+// walkErrorPath: an execution-phase coercion error names "the argument's path": the field, then the
+// argument, then a position inside the value that was sent (after variable substitution and
+// defaults). Every segment has to exist in that value (an index inside a list of that length, a
+// field of the input object at that position) and what stands at the end of the path has to be
+// something the reference does not accept. Returns "" when the path is such a position.
+func walkErrorPath(co *rc.Coercer, fd *ast.FieldDefinition, c InputCase, path ast.Path) string {
+	if n, ok := path[0].(ast.PathName); !ok || string(n) != c.Field {
+		return "does not start at the field"
+	}
+	if len(path) == 1 {
+		return ""
+	}
+	an, ok := path[1].(ast.PathName)
+	if !ok {
+		return "second segment is not an argument name"
+	}
+	ad := fd.Arguments.ForName(string(an))
+	if ad == nil {
+		return fmt.Sprintf("%s is not an argument of the field", an)
+	}
+	t := ad.Type
+	resolve := func(v *rc.Val, def *ast.Value) *rc.Val {
+		for hops := 0; v != nil && v.Kind == rc.KVar && hops < 4; hops++ {
+			vd := co.Vars[v.S]
+			switch {
+			case vd == nil:
+				v = nil
+			case vd.Provided:
+				v = vd.Value
+			case vd.Default != nil:
+				v = vd.Default
+			default:
+				v = nil
+			}
+		}
+		if v == nil || v.Kind == rc.KOmit {
+			if def != nil {
+				return rc.AstToVal(def)
+			}
+			return nil
+		}
+		return v
+	}
+	v := resolve(c.Args[ad.Name], ad.DefaultValue)
+	for i, seg := range path[2:] {
+		if v == nil || v.Kind == rc.KNull {
+			return fmt.Sprintf("segment %d (%v) lies below a position that is null or was not provided", i+2, seg)
+		}
+		switch sg := seg.(type) {
+		case ast.PathIndex:
+			if t.Elem == nil {
+				return fmt.Sprintf("segment %d is an index but the position has type %s", i+2, t.String())
+			}
+			if v.Kind != rc.KList {
+				// a single value standing for a list of one
+				if sg != 0 {
+					return fmt.Sprintf("segment %d is index %d of a single value", i+2, int(sg))
+				}
+				t = t.Elem
+				continue
+			}
+			if int(sg) >= len(v.Items) {
+				return fmt.Sprintf("segment %d is index %d of a list of %d", i+2, int(sg), len(v.Items))
+			}
+			t, v = t.Elem, resolve(v.Items[int(sg)], nil)
+		case ast.PathName:
+			def := co.Schema.Types[t.Name()]
+			if t.Elem != nil || def == nil || def.Kind != ast.InputObject {
+				return fmt.Sprintf("segment %d is a field name but the position has type %s", i+2, t.String())
+			}
+			f := def.Fields.ForName(string(sg))
+			if f == nil {
+				return fmt.Sprintf("%s has no field %s", def.Name, sg)
+			}
+			if v.Kind != rc.KObject {
+				return fmt.Sprintf("segment %d is a field name but the value there is a %s", i+2, v.Kind)
+			}
+			var fv *rc.Val
+			for j, k := range v.Keys {
+				if k == string(sg) {
+					fv = v.Fields[j]
+				}
+			}
+			t, v = f.Type, resolve(fv, f.DefaultValue)
+		}
+	}
+	return ""
 }
 
 // altMatches: does the observation equal what results when an unprovided variable inside an object
